@@ -19,7 +19,7 @@ from __future__ import annotations
 import ast
 import builtins
 import copy
-from dataclasses import dataclass
+from dataclasses import dataclass, field
 from fractions import Fraction
 from typing import Any, Iterable
 
@@ -61,9 +61,18 @@ def proportional(p: Poly, w: Poly) -> Fraction | None:
     return k if k != 0 else None
 
 
+class _Captured(Exception):
+    """Raised instead of entering the function whose call is being captured; carries its frame."""
+
+    def __init__(self, frame: dict[str, Any]) -> None:
+        super().__init__("captured")
+        self.frame = frame
+
+
 class LinInterp(OrderInterp):
     def __init__(self, prog: Program, module: Any) -> None:
         super().__init__(prog, module)
+        self.capture: FuncInfo | None = None  # function whose next call is to be captured, not entered
         # constraints added by undecided linear comparisons of this run: (P, strict) == P < 0 / P <= 0
         self.lin_facts: list[tuple[Poly, bool]] = []
 
@@ -213,8 +222,18 @@ class LinInterp(OrderInterp):
                                 f"(line {getattr(node, 'lineno', '?')})")
         return super().truth_of(v, node)
 
+    def call_func(self, fn: FuncInfo, pos: list[Any], kw: dict[str, Any]) -> Any:
+        if self.capture is not None and fn.node is self.capture.node:
+            self_value = None
+            if fn.cls is not None and pos:
+                self_value, pos = pos[0], pos[1:]
+            raise _Captured(self.bind_args(fn.node, pos, kw, self_value))
+        return super().call_func(fn, pos, kw)
+
     def _call_plain(self, fn: FuncInfo, pos: list[Any], kw: dict[str, Any], self_value: Any = None) -> Any:
         args = self.bind_args(fn.node, pos, kw, self_value)
+        if self.capture is not None and fn.node is self.capture.node:
+            raise _Captured(args)
         self.module_stack.append(fn.module)
         try:
             return self.call_node(fn.node, args)
@@ -247,20 +266,28 @@ class KeySet(set):  # type: ignore[type-arg]
 
 class StoreInterp(LinInterp):
     """LinInterp for the bookkeeping around the sweep: buckets are sets keyed by the equality of
-    Proposal ((priority, source_id)) that remember which object they hold, and calls of the
-    anchored sweep function are not entered but recorded together with their arguments."""
-
-    stub = "_calc_target_power"
+    Proposal ((priority, source_id)) that remember which object they hold.  The sweep itself is
+    not run: when the proposal loop (`loop`, bound by role, wherever it lives) is reached, what it
+    would iterate over is recorded and the running target (`target_name`) becomes a fresh atom."""
 
     def __init__(self, prog: Program, module: Any) -> None:
         super().__init__(prog, module)
-        self.stub_calls: list[tuple[list[Any], dict[str, Any]]] = []
+        self.loop: ast.For | None = None
+        self.target_name: str | None = None
+        self.visits: list[list[Any]] = []
         self.stub_result = Atom("NEW_TARGET")
 
     def reset(self) -> None:
         super().reset()
-        self.stub_calls = []
+        self.visits = []
         self.stub_result = Atom("NEW_TARGET")
+
+    def stmt(self, s: ast.stmt) -> None:
+        if s is self.loop and self.target_name is not None:
+            self.visits.append(list(self.iterate(self.eval(s.iter), s.iter)))
+            self.env[self.target_name] = self.stub_result
+            return
+        super().stmt(s)
 
     def key(self, k: Any) -> Any:
         if isinstance(k, Obj) and k.cls == "Proposal" and {"priority", "source_id"} <= set(k.fields):
@@ -304,10 +331,6 @@ class StoreInterp(LinInterp):
         return super().iterate(v, node)
 
     def apply(self, fn: Any, pos: list[Any], kw: dict[str, Any], node: ast.AST) -> Any:
-        target = fn[1] if isinstance(fn, tuple) and fn and fn[0] == "bound" else fn
-        if isinstance(target, FuncInfo) and target.name == self.stub:
-            self.stub_calls.append((list(pos), dict(kw)))
-            return self.stub_result
         if isinstance(fn, tuple) and fn and fn[0] == "setmethod":
             if len(pos) != 1 or kw:
                 raise AnalysisError(f"set.{fn[2]} call not interpretable")
@@ -348,30 +371,64 @@ def _used(stmts: Iterable[ast.AST]) -> set[str]:
 
 @dataclass
 class Sweep:
-    fn: FuncInfo
+    fn: FuncInfo            # the function that holds the proposal loop (the sweep proper)
+    entry: FuncInfo         # the function entered from outside; `fn` itself or a caller that reaches it
+    entry_sys: str          # parameter of `entry` that receives the system bounds
+    entry_extra: dict[str, Any]  # concrete values of the other parameters of `entry`
     pro: list[ast.stmt]
     loop: ast.For
     epi: list[ast.stmt]
     pv: str                 # the loop variable (one proposal)
     svars: list[str]        # locals bound before the loop and used inside it
-    sys_param: str          # parameter that receives the system bounds
+    base: dict[str, Any] = field(default_factory=dict)  # scalar arguments `fn` is entered with
     L: str = ""
     U: str = ""
     X: str = ""
     T: str | None = None
 
     def self_obj(self) -> Obj | None:
-        if self.fn.cls is None:
+        if self.entry.cls is None:
             return None
-        return Obj(self.fn.cls.name, _component_buckets={}, _target_power={})
+        placeholder = Obj("Proposal", preferred_power=None, bounds=Obj("Bounds", lower=None, upper=None),
+                          priority=0, source_id="placeholder")
+        return Obj(self.entry.cls.name, _component_buckets={"ids": [placeholder]}, _target_power={})
 
-    def frame(self, **roles: Any) -> dict[str, Any]:
-        """Initial frame of one iteration: state locals default to None, `self` is a record of the
-        analysed class (so that private helpers are called), roles as given."""
-        args: dict[str, Any] = {v: None for v in self.svars}
-        so = self.self_obj()
+    def _self_name(self) -> str | None:
+        if self.fn.cls is None or _is_static(self.fn.node) or not self.fn.params:
+            return None
+        return self.fn.params[0]
+
+    def enter(self, it: "LinInterp", sysb: Any, so: Obj | None = None, **override: Any) -> dict[str, Any]:
+        """The frame with which `fn` starts when `entry` is called with these system bounds: `entry`
+        is executed inside the current abstract run up to the call of `fn` (whose arguments are then
+        whatever the caller computes for them - no parameter name or position of `fn` is assumed)."""
+        args = dict(self.entry_extra)
+        args.update(override)
+        so = so if so is not None else self.self_obj()
         if so is not None:
-            args[self.fn.params[0]] = so
+            args[self.entry.params[0]] = so
+        args[self.entry_sys] = sysb
+        if self.fn.node is self.entry.node:
+            return args
+        it.capture = self.fn
+        depth = len(it.frames)
+        try:
+            it.call_node(self.entry.node, args)
+        except _Captured as c:
+            return c.frame
+        finally:
+            it.capture = None
+            del it.frames[depth:]
+        raise AnalysisError(f"{self.entry.qual}: this call does not reach the sweep in {self.fn.qual}")
+
+    def frame(self, so: Obj | None = None, **roles: Any) -> dict[str, Any]:
+        """Initial frame of one iteration: the scalar arguments the sweep is entered with, state
+        locals default to None, `self` is a record of the analysed class, roles as given."""
+        args: dict[str, Any] = dict(self.base)
+        args.update({v: None for v in self.svars})
+        sn = self._self_name()
+        if sn is not None:
+            args[sn] = so if so is not None else self.self_obj()
         args.update(roles)
         return args
 
@@ -379,6 +436,8 @@ class Sweep:
 def split_sweep(fn: FuncInfo) -> tuple[list[ast.stmt], ast.For, list[ast.stmt]]:
     body = [s for s in fn.node.body if not (isinstance(s, ast.Expr) and isinstance(s.value, ast.Constant))]
     loops = [s for s in body if isinstance(s, ast.For)]
+    if len(loops) != 1:
+        loops = [s for s in _proposal_loops(fn) if s in body]
     if len(loops) != 1:
         raise AnalysisError(f"{fn.qual}: expected exactly one top-level proposal loop, found {len(loops)}")
     i = body.index(loops[0])
@@ -405,20 +464,51 @@ def mk_system(it: OrderInterp, order: str, keep_zero: bool = False) -> tuple[Obj
     return Obj("SystemBounds", inclusion_bounds=incl, exclusion_bounds=excl), incl, excl
 
 
-def sweep_roles(prog: Program, fn: FuncInfo, sys_index: int, extra: dict[str, Any]) -> Sweep:
-    """Bind the roles of a sweep function by dataflow.
+def _sorts(e: ast.AST) -> bool:
+    return any(isinstance(n, ast.Call) and isinstance(n.func, ast.Name) and n.func.id in ("sorted", "reversed")
+               for n in ast.walk(e))
 
-    The prologue is run on a system-bounds record with recognisable atoms; afterwards the local
-    that holds the inclusion lower bound *is* the running lower bound, and so on.  `extra` gives
-    concrete values for the remaining parameters."""
+
+def _proposal_loops(fn: FuncInfo) -> list[ast.For]:
+    """Top-level loops over a sorted / reversed collection (the proposal sweep's shape); the
+    collection may have been put into a local first."""
+    ordered = {t.id for n in walk_no_nested(fn.node) if isinstance(n, ast.Assign) and _sorts(n.value)
+               for t in n.targets if isinstance(t, ast.Name)}
+    out = []
+    for st in fn.node.body:
+        if isinstance(st, ast.For) and (_sorts(st.iter) or any(
+                isinstance(n, ast.Name) and n.id in ordered for n in ast.walk(st.iter))):
+            out.append(st)
+    return out
+
+
+def find_holder(prog: Program, entry: FuncInfo) -> FuncInfo:
+    """The function that plays the role 'sweep over the sorted proposals' for `entry`: `entry`
+    itself or the one same-module helper it reaches whose body has the top-level proposal loop."""
+    fns = reach(prog, entry)
+    cands = [h for h in fns if _proposal_loops(h)]
+    if not cands:  # no loop of the usual shape: a single function with a single top-level loop will do
+        cands = [h for h in fns if sum(isinstance(st, ast.For) for st in h.node.body) == 1]
+    if len(cands) != 1:
+        raise AnalysisError(f"{entry.qual}: expected exactly one function with the top-level loop over the "
+                            f"sorted proposals among it and its helpers, found {len(cands)}")
+    return cands[0]
+
+
+def sweep_roles(prog: Program, entry: FuncInfo, entry_sys: str, extra: dict[str, Any]) -> Sweep:
+    """Bind the roles of a sweep by dataflow.
+
+    The sweep is the function reached from `entry` that holds the proposal loop.  It is entered the
+    way `entry` enters it, with a system-bounds record of recognisable atoms; its prologue is run;
+    afterwards the local that holds the inclusion lower bound *is* the running lower bound, and so
+    on.  `extra` gives concrete values for the remaining parameters of `entry`."""
+    fn = find_holder(prog, entry)
     pro, loop, epi = split_sweep(fn)
     if not isinstance(loop.target, ast.Name):
         raise AnalysisError(f"{fn.qual}: the proposal loop does not bind a single loop variable")
-    if len(fn.params) <= sys_index:
-        raise AnalysisError(f"{fn.qual}: no system-bounds parameter at position {sys_index}")
     before = _stored(pro)
     svars = sorted(before & _used([loop]))
-    sw = Sweep(fn, pro, loop, epi, loop.target.id, svars, fn.params[sys_index])
+    sw = Sweep(fn, entry, entry_sys, dict(extra), pro, loop, epi, loop.target.id, svars)
     names = sorted(before)
     pfn = synth("prologue", pro, names)
 
@@ -429,18 +519,16 @@ def sweep_roles(prog: Program, fn: FuncInfo, sys_index: int, extra: dict[str, An
         def make() -> dict[str, Any]:
             sysb, incl, excl = mk_system(it, order)
             got.update(incl=incl, excl=excl, zero=it.globals["__ZERO__"])
-            args = dict(extra)
-            so = sw.self_obj()
-            if so is not None:
-                args[fn.params[0]] = so
-            args[sw.sys_param] = sysb
-            return args
+            frame = sw.enter(it, sysb)
+            got["frame"] = frame
+            return frame
 
         outs = it.explore(pfn, make)
         if len(outs) != 1 or outs[0].kind != "return" or not isinstance(outs[0].value, tuple) \
                 or len(outs[0].value) != len(names):
             raise AnalysisError(f"{fn.qual}: the prologue of the sweep is not a straight computation "
                                 f"of the initial state ({len(outs)} abstract paths)")
+        sw.base = {k: v for k, v in got["frame"].items() if isinstance(v, (str, int, float, bool, type(None)))}
         return dict(zip(names, outs[0].value)), got["incl"], got["excl"], got["zero"]
 
     env, incl, excl, zero = run_prologue("strict")
